@@ -19,6 +19,60 @@ CHECKS = {
              "documented in CombinedData, pandas/numpy. Runs that raise are counted, not judged (C11/C14 judge them).",
         ref="DESIGN.md section 6 C01",
     ),
+    "C02": dict(
+        category="exploration",
+        technique="runtime monitoring: reference-model monitor (re-summing unit rows; recomputing every bootstrap aggregate interval from the model's stored draws) over real get_estimates runs",
+        text="Group predictions (nonparametric: and bounds) are re-summed from the unit rows with python loops, finer "
+             "tables are summed onto coarser ones, and for the bootstrap every aggregate interval is recomputed group "
+             "by group from the draw matrices left on the model object and compared with the row it was stored on, so "
+             "a positional mis-assignment is visible even when two groups have similar numbers.",
+        note="Trusted: vlib/tablecheck.py reference; model attributes errors_B_1..4 / weighted_*_test_pred as the "
+             "unit-level draws. Gaussian aggregate bounds are only checked with row-local relations here (C15 "
+             "recomputes them).",
+        ref="DESIGN.md section 6 C02",
+    ),
+    "C03": dict(
+        category="exploration",
+        technique="runtime monitoring: row-predicate contracts on every returned unit and group row, workloads biased to make each of the five floors binding",
+        text="Row predicates (>= counted, finite whole numbers, final units equal counted votes, complete groups "
+             "zero-width) evaluated on every row of every table from runs whose feeds are built so that each floor "
+             "(unit pred/lower/upper, gaussian aggregate lower/upper) is actually binding; the run is inconclusive if "
+             "one of the five sites was never binding.",
+        note="Trusted: the predicates in vlib/tablecheck.check_floor; 'binding' is detected as value == positive counted votes.",
+        ref="DESIGN.md section 6 C03",
+    ),
+    "C17": dict(
+        category="exploration",
+        technique="runtime monitoring: boundary contract on VersionedDataHandler.compute_versioned_margin_estimate against a per-unit plain-python reference; second monitor on _extrapolate_unit_margin",
+        text="The real interpolation function is called on generated version histories (regular, repeated, zero "
+             "prefixes, downward revisions, impossible batches, shrinking two-party totals, int and float dtypes); a "
+             "per-unit reference with true division decides regular/irregular from the statement and recomputes every "
+             "row.",
+        note="Trusted: the reference in vlib/checks/c17.py. The second monitor (_extrapolate_unit_margin) cannot run "
+             "under pandas 3 (the repository's groupby.apply relies on the grouping column being passed); it reports "
+             "itself unavailable instead of judging.",
+        ref="DESIGN.md section 6 C17",
+    ),
+    "C18": dict(
+        category="fault_enumeration",
+        technique="runtime monitoring: offline trace checker over recorded put_object calls + sys.addaudithook file/socket events, exhaustive over save_output x environment x estimator x gate outcome",
+        text="Every combination of save_output options, local/non-local environment, estimator, gate outcome (and "
+             "national summary for the bootstrap) is executed in a subprocess per environment; the recorded sequence "
+             "of remote puts and local file/socket events is checked against the persistence specification (what may "
+             "be written, where, and in which order relative to the gate).",
+        note="Trusted: the recording boto3 client replaces the network boundary; audit events as delivered by CPython.",
+        ref="DESIGN.md section 6 C18",
+    ),
+    "C20": dict(
+        category="fault_enumeration",
+        technique="runtime monitoring with fault injection: every fit position x both failure kinds injected at QuantileRegressionSolver.fit; event-log rule for the retry + table comparison with the fault-free run",
+        text="For each generated election every position of the failing solve (median/lower/upper of every estimand "
+             "and level) and both failure kinds are injected; the solver-call event log is checked against the retry "
+             "rule and the returned tables are compared with the fault-free run.",
+        note="Trusted: injection at the elexsolver boundary represents real solver failures; the known finding for "
+             "lambda_>0 is listed in KNOWN_FINDINGS.json.",
+        ref="DESIGN.md section 6 C20",
+    ),
 }
 
 NOT_YET = {}
